@@ -125,7 +125,11 @@ Gapless(R) == \A j \in 1..Len(R) : R[j] # "-"
 FailedRun(v, c, k, o) ==
   LET r == v.runs[k]  ro == o.runs[k]
       plainOf == FindRun(v, LAMBDA x : x.cmd = r.cmd /\ x.anno = r.anno /\ x.append = r.append /\ ~x.agg /\ x.s = -1 /\ x.e = -1 /\ ~x.stdin)
+      wiring == IF ~CliBad(ro) THEN {} ELSE
+                  (IF r.agg THEN {"C13-cli-wiring"} ELSE IF r.s # -1 \/ r.e # -1 THEN {"C15-cli-wiring"} ELSE {"C04-cli-wiring", "C05-cli-wiring"})
+                  \cup (IF r.anno = "gff" THEN {"C14-cli-wiring"} ELSE {}) \cup (IF r.cmd = "samvar" THEN {"C11-cli-wiring"} ELSE {})
   IN
+  wiring \cup
   IF r.agg THEN
      (IF plainOf # {} /\ ~AggOK(c, r, ro, o.runs[CHOOSE x \in plainOf : TRUE]) THEN {"C13-aggregate"} ELSE {})
   ELSE IF r.s # -1 \/ r.e # -1 THEN
